@@ -86,6 +86,12 @@ func (vc *FuncVC) call(b *ssa.BasicBlock, idx int, ins ssa.Instruction, c *ssa.C
 			vc.oblige("assert:"+vc.con.OSCallsLabel+"@os-calls-only", vc.con.OSCallsLabel, "the function calls only the whitelisted operating-system functions; found "+key, pos, reach, False)
 		}
 	}
+	if vc.con != nil && vc.con.HasOSCalls && con == nil {
+		if sc := c.StaticCallee(); sc != nil && sc.Pkg != nil && strings.HasPrefix(sc.Pkg.Pkg.Path(), repoModule) {
+			// a repository function without a contract: what it does to the file system is unknown
+			vc.oblige("assert:"+vc.con.OSCallsLabel+"@os-calls-only", vc.con.OSCallsLabel, "the function calls only the whitelisted operating-system functions; it calls "+key+", which has no contract (its operating-system calls are unknown)", pos, reach, False)
+		}
+	}
 	// type-specialised contracts: key<dynamic type of an interface argument>, e.g. json.Unmarshal<*T>; the
 	// argument is then bound to the value inside the interface
 	unboxed := map[int]ssa.Value{}
@@ -202,6 +208,10 @@ func (vc *FuncVC) call(b *ssa.BasicBlock, idx int, ins ssa.Instruction, c *ssa.C
 			if ca.Site != 0 && ca.Site != siteNo {
 				continue
 			}
+			if vc.caMatched == nil {
+				vc.caMatched = map[*CallAssert]bool{}
+			}
+			vc.caMatched[ca] = true
 			env := &Env{vc: vc, st: st, old: vc.entry, vars: map[string]SVal{}, ctx: ca.Clause.Ctx}
 			extra := map[string]SVal{}
 			for k, v := range vars {
@@ -293,6 +303,15 @@ func (vc *FuncVC) call(b *ssa.BasicBlock, idx int, ins ssa.Instruction, c *ssa.C
 	} else if vc.relied != nil {
 		// a contract that is itself proved: this function's proof stands on that proof
 		vc.relied[con.Key] = true
+	}
+	if c.IsInvoke() && vc.relied != nil {
+		// an assumed contract of an interface method: the repository's own implementations of that interface are what
+		// the assumption stands for in the library's normal use, so their (proved) contracts are part of this proof
+		for _, ik := range vc.P.implementers(c.Value.Type(), c.Method.Name()) {
+			if ic := vc.S.Contracts[ik]; ic != nil && !ic.Extern && !ic.Trusted {
+				vc.relied[ik] = true
+			}
+		}
 	}
 	argBind := map[string]SVal{}
 	for k, v := range vars {
